@@ -102,3 +102,5 @@ def dedupFirst {α} [BEq α] (xs : List α) : List α :=
   (xs.foldl (fun acc x => if acc.elem x then acc else x :: acc) []).reverse
 
 end Py
+
+deriving instance DecidableEq for Except
